@@ -56,6 +56,11 @@ impl Inst {
         Inst { dir: dir.to_path_buf(), methods: Some(v::rpc_methods(engine)), rt }
     }
 
+    /// an instance that is not open (a placeholder where only the bookkeeping of a context is needed)
+    pub fn closed(dir: &Path, rt: Arc<tokio::runtime::Runtime>) -> Inst {
+        Inst { dir: dir.to_path_buf(), methods: None, rt }
+    }
+
     /// stop + reopen the same directory (a new engine, empty caches)
     pub fn reopen(&mut self) {
         self.methods = None; // drops the engine and closes RocksDB
